@@ -76,6 +76,7 @@ type treeWorld struct {
 	// monitor state: committed leaves / roots per version (reference), pending within tx
 	ref        depTree
 	refBroken  bool
+	poisoned   bool // a fault was injected into the open transaction: it must be rolled back
 	fabRef     depTree
 	refPending []common.Hash
 	refSnap    depTree
@@ -207,6 +208,10 @@ func (w *treeWorld) exec(r *Run, line string) {
 			r.Emit(line, "bad-op")
 			return
 		}
+		if w.poisoned {
+			r.Emit(line, "bad-op")
+			return
+		}
 		err := w.tx.Commit()
 		w.tx = nil
 		r.Emit(line, errKind(err))
@@ -222,6 +227,7 @@ func (w *treeWorld) exec(r *Run, line string) {
 		}
 		err := w.tx.Rollback()
 		w.tx = nil
+		w.poisoned = false
 		r.Emit(line, errKind(err))
 		w.ref = w.refSnap
 		for _, idx := range w.pendIdx {
@@ -315,6 +321,58 @@ func (w *treeWorld) exec(r *Run, line string) {
 				// reference is no longer meaningful, so its monitors are switched off from here on
 				r.Count("branch:stale-index-accepted")
 				w.refBroken = true
+			}
+		}
+	case "addF", "upsertF":
+		// AddLeaf / UpsertLeaf with the k-th storage statement failing; the generator rolls back afterwards
+		if w.tx == nil {
+			r.Emit(line, "bad-op")
+			return
+		}
+		k := int(bigOf(ws[1]).Uint64())
+		bn, bp, idx := bigOf(ws[2]).Uint64(), bigOf(ws[3]).Uint64(), bigOf(ws[4]).Uint64()
+		leaf := common.BytesToHash(unhx(ws[5]))
+		ft := &faultTx{Txer: w.tx, failAt: k}
+		if ws[0] == "addF" {
+			err := w.ao.AddLeaf(ft, bn, bp, treetypes.Leaf{Index: uint32(idx), Hash: leaf})
+			if ft.hit {
+				if err == nil {
+					r.Emit(line, "ok")
+					r.Fail(fmt.Sprintf("AddLeaf swallowed a storage error at statement %d", k), cp())
+				} else {
+					r.Emit(line, "err fault")
+				}
+				w.poisoned = true
+			} else {
+				r.Emit(line, errKind(err))
+				if err == nil {
+					w.ref.add(leaf)
+					w.refPending = append(w.refPending, leaf)
+					w.rootsByIdx[idx] = w.ref.root()
+					w.pendIdx = append(w.pendIdx, idx)
+					w.pendBn = append(w.pendBn, bn)
+				}
+			}
+		} else {
+			root, err := w.upd.UpsertLeaf(ft, bn, bp, treetypes.Leaf{Index: uint32(idx), Hash: leaf})
+			if ft.hit {
+				if err == nil {
+					r.Emit(line, "root "+hx(root[:]))
+					r.Fail(fmt.Sprintf("UpsertLeaf swallowed a storage error at statement %d and recorded root %s", k, root.Hex()), cp())
+				} else {
+					r.Emit(line, "err fault")
+				}
+				w.poisoned = true
+			} else if err != nil {
+				r.Emit(line, errKind(err))
+			} else {
+				r.Emit(line, "root "+hx(root[:]))
+				w.sparse[uint32(idx)] = leaf
+				cpLeaves := map[uint32]common.Hash{}
+				for k, v := range w.sparse {
+					cpLeaves[k] = v
+				}
+				w.pendUpd = append(w.pendUpd, updVersion{root: root, bn: bn, leaves: cpLeaves})
 			}
 		}
 	case "upsert":
